@@ -158,8 +158,16 @@ def build_kinds(rng, cap):
             ls_ok.append(e)
         except Exception:
             pass
-    K['linkstate-attribute-tlvs'] = dict(pool=ls_ok, dec=lambda d: LinkState.unpack(d, 2).value, join=cat,
-                                         unknown=[struct.pack('!HH', 64000, 3) + b'abc', struct.pack('!HH', 9, 0)])
+    # TLVs the decoder has no class for: type codes next to the supported ones (LS_KNOWN is the harness's own list of the
+    # supported codes - a class that answers for a neighbouring code by mistake must not be taken for support), with
+    # bodies of 0..17 octets
+    ls_unknown = [struct.pack('!HH', 64000, 3) + b'abc', struct.pack('!HH', 9, 0)]
+    for t in sorted({t + d for t in LS_KNOWN for d in (-2, -1, 1, 2)} | {0, 1, 257, 999, 65535}):
+        if t in LS_KNOWN or not 0 <= t <= 65535:
+            continue
+        for n in range(18):
+            ls_unknown.append(struct.pack('!HH', t, n) + bytes((7 * i + t) & 0xff for i in range(n)))
+    K['linkstate-attribute-tlvs'] = dict(pool=ls_ok, dec=lambda d: LinkState.unpack(d, 2).value, join=cat, unknown=ls_unknown)
     K['bgpls-nlris'] = dict(pool=sorted(nlri_pool), dec=lambda d: BGPLS.parse(d), join=cat)
     for e in sorted(nlri_pool):
         t = int.from_bytes(e[:2], 'big')
@@ -186,7 +194,10 @@ def build_kinds(rng, cap):
             ps_ok.append(e)
         except Exception:
             pass
-    K['prefix-sid-tlvs'] = dict(pool=ps_ok, dec=lambda d: BGPPrefixSID.unpack(d), join=cat, unknown=[struct.pack('!BH', 200, 2) + b'xy'])
+    K['prefix-sid-tlvs'] = dict(pool=ps_ok, dec=lambda d: BGPPrefixSID.unpack(d), join=cat,
+                                unknown=[struct.pack('!BH', 200, 2) + b'xy'] + [
+                                    struct.pack('!BH', t, n) + bytes((5 * i + t) & 0xff for i in range(n))
+                                    for t in (0, 2, 4, 6, 7, 255) for n in range(0, 24, 3)])
     # keep only elements that decode alone; cap pools
     rejected = []
     corpus_kinds = ('linkstate-attribute-tlvs', 'bgpls-nlris', 'bgpls-descriptors', 'prefix-sid-tlvs')
@@ -208,6 +219,13 @@ def build_kinds(rng, cap):
         k['pool'] = ok
     K['__rejected__'] = rejected
     return K, BGPLS
+
+
+# link-state attribute TLV codes the pinned decoder supports (yabgp/message/attribute/linkstate/**)
+LS_KNOWN = frozenset([258, 266, 267, 1024, 1025, 1026, 1027, 1028, 1029, 1030, 1031, 1034, 1035, 1036, 1038, 1050, 1088, 1089, 1090,
+                      1091, 1092, 1093, 1094, 1095, 1096, 1097, 1098, 1099, 1100, 1101, 1102, 1103, 1106, 1107, 1108, 1110, 1114,
+                      1115, 1116, 1117, 1118, 1119, 1120, 1152, 1153, 1154, 1155, 1156, 1158, 1161, 1162, 1170, 1171, 1173, 1250,
+                      1251, 1252])
 
 
 def dec_desc(BGPLS, elems):
@@ -282,8 +300,10 @@ def run_shard(sh):
             n = rng2.randint(3, 8)
             check_tuple(name, k, tuple(rng2.choice(pool) for _ in range(n)))
         # unknown TLV between known ones
-        for u in k.get('unknown', []):
-            for _ in range(40 if sh['tier'] == 'quick' else 400):
+        unk = k.get('unknown', [])
+        if unk:
+            for _ in range(max(len(unk), 80) * (3 if sh['tier'] == 'quick' else 30) // max(1, sh['nparts'] // 4)):
+                u = rng2.choice(unk)
                 a, b = rng2.choice(pool), rng2.choice(pool)
                 ncase += 1
                 try:
